@@ -5,30 +5,55 @@ import os
 import vlib
 
 PROPS = "Properties_C15"
+PROPS_LINKS = "Properties_C15_links"
 RULE = ("D: path shapes built from components {a,b,c,.,..,''} (relative and absolute, repeated/trailing separators), "
-        "each against pre-existing trees (empty, partly existing, a file in the way), allocation ok/failing; "
+        "each against pre-existing trees (empty, partly existing, a file in the way), allocation ok/failing, and against "
+        "trees with symbolic links (to a directory, to a file, dangling, loops, absolute and '..' targets, chains of 40 "
+        "and 41 links) and fifos; Q: file/symlink type and size of any path over such trees; "
         "E: file pairs with sizes around multiples of the page size (and of the 512-byte fall-back buffer) +-1, one "
         "differing byte at first/last/page-boundary positions, missing files, same path/hard link/symlink, allocator "
-        "answers, scripted short reads and errors; T: all file kinds; R: directory listings.  non-trivial = D with a "
-        "non-empty path, E with two existing files")
+        "answers, scripted short reads and errors; T: all file kinds; R/RL: real directory listings (names with dots, "
+        "spaces), V: scripted readdir orders with '.' and '..' anywhere.  non-trivial = D with a non-empty path, E with "
+        "two existing files, every Q/T/R/V")
 ASSUMPTIONS = [
-    "abstract file system coq/FsSpec.v: directories and regular files only, no symlinks, no permissions, no "
-    "concurrent modification; mkdir/stat errors are ENOENT/EEXIST/ENOTDIR only",
+    "abstract file system coq/FsLinkSpec.v (directories, regular files, symbolic links, fifos, sockets, devices; path "
+    "resolution with '.', '..', link targets, trailing separators, at most 40 links per resolution as in Linux; mkdir: "
+    "EEXIST when the name exists even as a dangling link): no permissions (no EACCES), no concurrent modification; the "
+    "real kernel's stat/lstat answers (mode or errno) and the resulting trees are compared with it on every D/Q/T case",
+    "abstract file system coq/FsSpec.v (directories and regular files only) for the theorems of Properties_C15.v; on "
+    "every D case without links the two models are run side by side and must print the same line",
     "file_equals: theorem file_equals_iff_bytes assumes an environment without short reads or I/O errors on the two "
     "regular files (explicit hypothesis `script = []`); short reads are modelled and tied (a short read is taken as a mismatch by the code)",
-    "zix_symlink_type, zix_canonical_path, zix_dir_for_each, symlinks and permissions are NOT in the proved part: "
-    "they are compared with direct lstat/realpath/readdir calls by the driver only",
-    "create_directories with pre-existing symbolic links (to a directory, to a file, dangling; as intermediate or final "
-    "component): real runs only, L1 = SUCCESS exactly when stat (following links) says the path names a directory; the "
-    "model's answer for these cases is computed on the abstract file system with a link to a directory counted as a "
-    "directory and any other link as a file, and only the observable part is compared",
-    "page size 4096 (sysconf) in the model driver",
+    "zix_dir_for_each: the callback is modelled as being called (its arguments are logged), not as code that may itself "
+    "open or close descriptors; the entry list is what readdir returns (any names, any order)",
+    "zix_canonical_path and permissions are NOT in the proved part: canonical_path is compared with realpath by the driver only",
+    "page size 4096 (sysconf) in the model driver; permission bits 0755 in the model driver (the theorems are for any)",
 ]
 
 WRAPS = ["open", "open64", "fstat", "fstat64", "stat", "stat64", "copy_file_range", "read", "write",
-         "fdatasync", "close", "posix_fadvise", "posix_fadvise64", "mkdir"]
+         "fdatasync", "close", "posix_fadvise", "posix_fadvise64", "mkdir",
+         "lstat", "lstat64", "opendir", "readdir", "readdir64", "closedir"]
 REPO_FILES = ["posix/filesystem_posix.c", "posix/system_posix.c", "system.c", "errno_status.c", "allocator.c",
               "filesystem.c", "path.c", "string_view.c"]
+
+
+def check(ctx):
+    """standard flow; the proof step compiles both property files (Properties_C15, Properties_C15_links)"""
+    import sys
+    orig = ctx.proof_step
+
+    def both(props_module=None, regen=None, timeout=900):
+        pr = orig(PROPS, regen=regen, timeout=timeout)
+        extra = orig(PROPS_LINKS, timeout=timeout)
+        merged = {"file": pr["file"] + " + " + extra["file"], "theorems": pr["theorems"] + extra["theorems"],
+                  "obligations": pr["obligations"] + extra["obligations"],
+                  "discharged": pr["discharged"] + extra["discharged"], "ok": pr["ok"] and extra["ok"],
+                  "axioms": sorted(set(pr["axioms"] + extra["axioms"])), "log": pr["log"] + extra["log"]}
+        ctx.proof = merged
+        return merged
+
+    ctx.proof_step = both
+    return vlib.standard_check(ctx, sys.modules[__name__])
 
 
 def build(ctx):
@@ -95,15 +120,40 @@ def gen(ctx, seed, tier):
             cases.append("D 1 %s %s" % (s, p))
         if r.random() < 0.1:
             cases.append("D 0 %s %s" % (r.choice(SETUPS), p))
-    # pre-existing symbolic links (real file system only; L1 = SUCCESS exactly when stat says the path is a directory)
+    # pre-existing symbolic links and fifos: model = coq/FsLinkModel.v over coq/FsLinkSpec.v
     link_setups = ["d:a,l:s=a", "d:a,d:a/b,l:s=a", "f:a,l:s=a", "l:s=nowhere", "d:a,d:a/b,l:a/s=b", "d:a,l:s=a,l:t=s",
-                   "d:a,f:a/f,l:a/s=f"]
-    link_paths = ["s", "s/", "s/x", "s/x/y", "s//x/", "./s/b", "s/./x", "a/s", "a/s/x", "a/s/x/y", "t/x", "x/s", "s/b/c", "a/b/s"]
+                   "d:a,f:a/f,l:a/s=f", "d:a,l:s=@/a", "d:a,d:a/b,l:s=../w/a/b", "d:a,l:s=a/", "f:a,l:s=a/", "l:s=s",
+                   "l:s=t,l:t=s", "d:a,p:a/s", "p:s", "p:a,l:s=a", "l:s=.", "d:a,d:a/b,l:a/b/s=..", "d:a,l:s=a,l:a/t=../s",
+                   "d:a,l:s=nowhere/a", "d:a,d:a/b,l:s=a/b,l:t=s/.."]
+    link_paths = ["s", "s/", "s/x", "s/x/y", "s//x/", "./s/b", "s/./x", "a/s", "a/s/x", "a/s/x/y", "t/x", "x/s", "s/b/c",
+                  "a/b/s", "s/../x", "s/..", "a/b/s/x", "t", "a/t/x", "s/s/x", "s/x/../y/"]
     for s in link_setups:
         for p in link_paths:
             cases.append("D 1 %s %s" % (s, p))
             if r.random() < 0.2:
                 cases.append("D 1 %s @/%s" % (s, p))
+            if r.random() < 0.05:
+                cases.append("D 0 %s %s" % (s, p))
+    comps_l = ["s", "t", "a", "b", "x", ".", "..", ""]
+    for _ in range(400 if thorough else 60):
+        p = "/".join(r.choice(comps_l) for _ in range(r.randint(1, 5)))
+        # no name of these setups leads above the case directory, so at most one ".." keeps the walk inside <base>
+        if p and not p.startswith("/") and p.split("/").count("..") <= 1:
+            cases.append("D 1 %s %s" % (r.choice(link_setups), p))
+    # the bound on the links followed in one resolution: chains c0 -> c1 -> ... -> a of 40 and 41 links, and the
+    # same link 40 and 41 times in one path
+    for n in (39, 40, 41, 42):
+        chain = "d:a," + ",".join("l:c%d=%s" % (i, ("c%d" % (i + 1)) if i + 1 < n else "a") for i in range(n))
+        cases += ["D 1 %s c0/x" % chain, "D 1 %s c0" % chain, "Q %s c0" % chain, "Q %s c1/." % chain]
+        seq = "/".join(["s"] * n)
+        cases += ["D 1 l:s=. %s/x" % seq, "Q l:s=. %s" % seq, "Q d:a,l:s=. %s/a/" % seq]
+    # Q: zix_file_type / zix_symlink_type / zix_file_size on any path
+    q_paths = ["s", "s/", "s/.", "s/..", "s/x", "s/f", "s/f/", "a/s", "a/s/", "a", "a/", "a/f", "a/f/", "a/f/.", "a/f/..",
+               "missing", "missing/", "missing/x", "t", "t/", "t/b", ".", "..", "./s", "../w/s", "@/s", "@/s/", "a//s//", "s/s",
+               "a/../s", "s/../s", "a/b/s", "a/b/s/x"]
+    for s in link_setups:
+        for p in (q_paths if thorough else r.sample(q_paths, 14)):
+            cases.append("Q %s %s" % (s, p))
     # E: sizes around the page size and the fall-back buffer
     sizes = [0, 1, 2, 511, 512, 513, 1023, 1024, 1025, 4095, 4096, 4097, 8191, 8192, 8193]
     if thorough:
@@ -141,13 +191,21 @@ def gen(ctx, seed, tier):
     for k in ["R", "D", "LR", "LD", "LX", "F", "S", "C", "M"]:
         for size in ([0, 1, 4096, 4097, 100000] if k in ("R", "LR") else [0]):
             cases.append("T %s %d" % (k, size))
-    # R: directory listings
-    names = ["a", "b", "sub/", ".hidden", "..x", "...", "x.y", "UPPER", "z/", ".d/", "long-name-with-many-characters.txt"]
-    cases.append("R -")
+    # R/RL: real directory listings (the kernel's order; both sides sort)
+    names = ["a", "b", "sub/", ".hidden", "..x", "...", "x.y", "UPPER", "z/", ".d/", "long-name-with-many-characters.txt",
+             "..data", "a%20b", "%20lead", ".%20", "..%20", "..a/", "....", ".a.b"]
+    cases += ["R -", "RL -"]
     for _ in range(60 if thorough else 15):
         k = r.randint(1, len(names))
-        cases.append("R " + ",".join(r.sample(names, k)))
+        cases.append("%s %s" % (r.choice(["R", "R", "RL"]), ",".join(r.sample(names, k))))
     cases.append("R " + ",".join("f%03d" % i for i in range(300)))
+    # V: scripted opendir/readdir: any names in any order, "." and ".." anywhere (or absent, or repeated)
+    pool = [".", "..", "a", "..data", "...", ".hidden", "a%20b", "..a", ".%20", "..%20", "x", "%2E", "b%2Cc", "d%3Ae"]
+    cases += ["V ok -", "V fail -", "V fail a,b", "V ok .,..", "V ok ..,.", "V ok a,.,..", "V ok .,..,..data,...,.hidden",
+              "V ok ..data", "V ok a,a,.,a"]
+    for _ in range(120 if thorough else 40):
+        k = r.randint(1, 9)
+        cases.append("V ok " + ",".join(r.choice(pool) for _ in range(k)))
     seen, out = set(), []
     for c in cases:
         if c not in seen:
